@@ -475,6 +475,11 @@ InjectKeep(st0, s) ==
          Push(st0, SubjEmit(st0, s.a, s.t, s.v))
     [] s.k = "mappend" ->        \* MultiSubscription API: append handle b to the composite handle a
          Push(st0, <<F2("mappend", st0.subs[st0.handles[s.a]].a, st0.handles[s.b])>>)
+    [] s.k = "mclosed" ->        \* is_closed() on a clone of the composite behind handle a (a handle that REMAINS after unsubscribe())
+         LET c == Closed(st0, st0.handles[s.a]) IN
+         IF c = 2 THEN Busy(st0) ELSE [st0 EXCEPT !.ret = B(c = 1)]
+    [] s.k = "bsunsub" ->        \* Subscription::unsubscribe on the BehaviorSubject itself
+         Push(st0, <<F1("sunsub", s.a)>>)
     [] s.k = "mretain" ->        \* MultiSubscription::retain() on the composite handle a
          Push(st0, <<F1("retain", st0.subs[st0.handles[s.a]].a)>>)
     [] s.k = "mnew" ->           \* a fresh, empty MultiSubscription kept as a handle
